@@ -421,7 +421,36 @@ func runHostileCase(hc *HostileCase, tr *Tr) error {
 	} else if out != "value" {
 		res = out // error | panic | timeout
 	}
-	tr.Emit(M{"ev": "reify", "cls": hc.Class, "variant": hc.Open, "res": res, "kind": kind, "subSame": subSame, "reenc": reenc,
+	adlRec := M{}
+	if out == "value" && node != nil {
+		eo := func(err error) string {
+			if err != nil {
+				return "err"
+			}
+			return "ok"
+		}
+		guard(func() {
+			_, e1 := node.AsBool()
+			_, e2 := node.AsInt()
+			_, e3 := node.AsFloat()
+			_, e4 := node.AsString()
+			_, e5 := node.AsLink()
+			adlRec = M{"asbool": eo(e1), "asint": eo(e2), "asfloat": eo(e3), "asstring": eo(e4), "aslink": eo(e5),
+				"isnull": node.IsNull(), "isabsent": node.IsAbsent(), "len": node.Length(),
+				"listiter": map[bool]string{true: "nil", false: "non"}[node.ListIterator() == nil]}
+			if node.Kind() != datamodel.Kind_Bytes {
+				// AsBytes on a file reads the whole file; only probe it on the other kinds
+				_, e6 := node.AsBytes()
+				adlRec["asbytes"] = eo(e6)
+			} else {
+				adlRec["asbytes"] = "ok"
+			}
+			_, e7 := node.LookupByIndex(0)
+			adlRec["idx0"] = eo(e7)
+			adlRec["mapiter"] = map[bool]string{true: "nil", false: "non"}[node.MapIterator() == nil]
+		})
+	}
+	tr.Emit(M{"ev": "reify", "adl": adlRec, "cls": hc.Class, "variant": hc.Open, "res": res, "kind": kind, "subSame": subSame, "reenc": reenc,
 		"e": res, "info": info, "isADL": subSame || reenc || res == "file" || res == "dir" || res == "hamtdir" || res == "linkmap"})
 	if out != "value" || node == nil {
 		return nil
